@@ -98,7 +98,7 @@ ASSUMPTIONS = [
     "missing error / missed message are decided",
     "the local dictionary contains 0x1017 with a default (the slave reads it when entering PRE-OPERATIONAL)",
 ]
-BUDGET = {"quick": 40, "thorough": 400}
+BUDGET = {"quick": 150, "thorough": 400}
 
 # ---- reference tables (CiA 301, not imported from canopen) -------------------------
 INIT, PREOP, OPER, STOP = "INITIALISING", "PRE-OPERATIONAL", "OPERATIONAL", "STOPPED"
@@ -189,13 +189,21 @@ class Rig:
         # "pairs": 1 -> only node A exists; id B is then just another foreign id (raw frames only)
         self.nodes = "AB" if case.get("pairs", 2) == 2 else "A"
         self.views = tuple(["r" + T for T in self.nodes] + ["l" + T for T in self.nodes] + ["net"])
-        for T in self.nodes:
-            r = canopen.RemoteNode(self.ids[T], canopen.ObjectDictionary())
+        # "ctor": "od" -> the node id is not given to the constructor (None / 0) but taken from the
+        # object dictionary, as the node classes document
+        from_od = case.get("ctor") == "od"
+        for k, T in enumerate(self.nodes):
+            rod = canopen.ObjectDictionary()
+            if from_od:
+                rod.node_id = self.ids[T]
+            r = canopen.RemoteNode((None, 0)[k % 2] if from_od else self.ids[T], rod)
             self.mnet.add_node(r)
             self.remote[T] = r
             od = build_od([{"kind": "var", "index": 0x1017, "name": "Producer heartbeat time",
                             "dt": rc.UNSIGNED16, "default": case.get("hb_ms", 0)}])
-            loc = canopen.LocalNode(self.ids[T], od)
+            if from_od:
+                od.node_id = self.ids[T]
+            loc = canopen.LocalNode((0, None)[k % 2] if from_od else self.ids[T], od)
             self.snet.add_node(loc)
             self.local[T] = loc
         self.NmtError = canopen.nmt.NmtError
@@ -403,6 +411,22 @@ def step(rig, model, op, D, tag, before):
             got = {decode_hb(b) for to, b in op["feed"] if to == T}
             if got:
                 exp["r" + T] = got if (T == "A" and expect_return) else got | {tok(before["r" + T])}
+    elif kind == "replace":
+        # the slave object of node T is replaced by a fresh LocalNode with the same id (the old one is
+        # removed from the network); the new one starts in INITIALISING, nobody else is concerned
+        T = op["to"]
+        if rig.hb_tasks(T):
+            raise _Excluded("replace while the old node's heartbeat task is running (C17's subject)")
+        import canopen
+        od = build_od([{"kind": "var", "index": 0x1017, "name": "Producer heartbeat time",
+                        "dt": rc.UNSIGNED16, "default": 0}])
+        loc = canopen.LocalNode(ids[T], od)
+        try:
+            rig.snet.add_node(loc)
+        except Exception as e:
+            exc = e
+        rig.local[T] = loc
+        exp["l" + T] = {INIT}
     else:
         raise ValueError(kind)
 
@@ -606,6 +630,7 @@ def enum_short():
     for start in ("preop", "init"):
         for r in FLAT_ROUTES:
             yield _base("seq", start, [r])
+            yield dict(_base("seq", start, [r]), ctor="od")     # node ids taken from the dictionaries
     for start in ("preop", "init"):
         for r1 in FLAT_ROUTES:
             for r2 in FLAT_ROUTES:
@@ -725,6 +750,11 @@ def enum_wait(thorough):
     for feed in neg:
         yield _base("wait", "preop", [W("boot", feed)])
     yield _base("wait", "init", [W("boot", [])])
+    for who, other in (("A", "B"), ("B", "A")):
+        for cs in (1, 2, 128):
+            yield _base("seq", "preop", [{"op": "replace", "to": who}, {"op": "cmd", "cs": cs, "to": other},
+                                         {"op": "raw", "cs": 1, "to": "all"}, {"op": "cmd", "cs": cs, "to": who}],
+                        hb_ms=0)
     yield _base("wait", "init", [{"op": "hb", "byte": 0, "to": "A"}, W("boot", [])])
     yield _base("wait", "preop", [{"op": "hb", "byte": 0, "to": "A"}, W("boot", [["A", 5]])])
 
@@ -767,6 +797,7 @@ def _op():
         st.builds(lambda c, t: {"op": "lcmd", "cs": c, "to": t}, st.sampled_from(DEF_CS), t2),
         st.builds(lambda b, t: {"op": "hb", "byte": b, "to": t}, byte, st.sampled_from(["A", "A", "B", "none"])),
         st.builds(lambda t: {"op": "tick", "to": t}, t2),
+        st.builds(lambda t: {"op": "replace", "to": t}, t2),
     )
 
 
@@ -789,7 +820,7 @@ _INT03 = st.integers(0, 3)
 @st.composite
 def history(draw):
     return {"fam": "hist", "ids": draw(_IDS), "hb_ms": draw(_HB_MS), "mod": draw(_BOOL), "start": draw(_START),
-            "ops": draw(_OPS_1_12), "pairs": 2}
+            "ops": draw(_OPS_1_12), "pairs": 2, "ctor": "od" if draw(_INT03) == 0 else "arg"}
 
 
 @st.composite
